@@ -230,6 +230,45 @@ def _odd_work(units):
     return acc.out()
 
 
+# weights that are Python numbers of other kinds: ints beyond 2^53 (not exactly a float), Fractions, bools.  random.choices
+# takes them all; the total of such a vector need not be exactly representable as a float
+def exotic_vectors():
+    from fractions import Fraction as Fr
+
+    return [[2**53 + 1], [10**16, 10**16 + 1], [3, 0, 10**17, 0], [Fr(1, 3)], [Fr(1, 10)] * 3, [Fr(1, 3), Fr(2, 3)], [True, True, False], [2**70, 2**70], [10**30, 1], [1, 10**30],
+            [Fr(10**20, 3), 1], [2**53 + 1, 2**53 + 3, 5], [Fr(1, 3), 0, Fr(1, 7)], [10**22 + 1] * 5, [True], [1, True, 2.5], [Fr(7, 3)] * 64]
+
+
+def _exotic_work(units):
+    from fractions import Fraction as Fr
+
+    acc = progcheck.Acc()
+    fn = impl.binning.deterministic_choice
+    vs = exotic_vectors()
+    for j in units:
+        ws = vs[j]
+        n = len(ws)
+        pop = [f"g{i}" for i in range(n)]
+        fws = [Fr(w) for w in ws]
+        cum = list(accumulate(ws))
+        case = {"pop": "list", "n": n, "weights": [repr(w) for w in ws], "exotic": j}
+        for uid in IDS:
+            k = sem.hash_k(uid)
+            allowed = sem.part_allowed(fws, k) | {sem.part_exact(fws, k)}
+            for tag, r in (("weights", _call(fn, uid, pop, list(ws))), ("cum_weights", _call(fn, uid, pop, cum_weights=list(cum)))):
+                acc.add("evaluations")
+                if r[0] != "ok" or not any(r[1] is pop[i] for i in allowed if fws[i] > 0):
+                    acc.violation({"kind": "choice:exotic:" + tag, "case": case, "id": uid, "observed": short(repr(r)),
+                                   "why": f"weights of type {sorted({type(w).__name__ for w in ws})}: expected element index in {sorted(allowed)}"})  # fmt: skip
+                    break
+            acc.outcomes.add(f"exotic:{j}")
+        acc.add("evaluations")
+        r = _call(fn, None, pop, list(ws))
+        if r[0] != "ok" or not any(r[1] is pop[i] for i in range(n) if fws[i] > 0):
+            acc.violation({"kind": "choice:exotic:random", "case": case, "observed": short(repr(r)), "why": "the id-less draw must return a positive-weight element"})
+    return acc.out()
+
+
 def _flag_work(units):
     """(in a child interpreter with -O) the argument validation must not live in asserts"""
     out = _work([(v, kind) for v, kind in units])
@@ -242,12 +281,14 @@ def run(res, tier):
 
     for w in pmap(_odd_work, ODD, chunk=4):
         res.merge_worker(w)
+    for w in pmap(_exotic_work, list(range(len(exotic_vectors()))), chunk=3):
+        res.merge_worker(w)
     r = run_in_flagged_child("mc.checks.c16", "_flag_work", [[["1"], "list"], [["1", "2"], "list"], [["0", "1", "0.5"], "tuple"], [["1"] * 8, "list"]], ("-OO",))
     for v in r["viol"]:
         v["interpreter_flags"] = ["-OO"]
     r["outcomes"] = ["-OO:" + o for o in r["outcomes"]]
     res.merge_worker(r)
-    vs = list(ew.small_vectors(3 if tier == "quick" else 5)) + ew.families() + [["1"] * n for n in range(1, 65)] + extreme_vectors()
+    vs = list(ew.small_vectors(3 if tier == "quick" else 5)) + ew.families() + ew.families_large() + [["1"] * n for n in range(1, 65)] + extreme_vectors()
     units = [(v, kind) for v in vs for kind in (("list", "tuple") if len(v) <= 3 or len(v) in (8, 64) else ("list",))]
     for w in pmap(_work, permuted(units, "c16"), chunk=16):
         res.merge_worker(w)
@@ -265,6 +306,9 @@ def replay(data):
     if data.get("kind") == "choice:odd-equiv":
         r = _odd_work([[float(x) if ("." in x or "e" in x or "inf" in x) else int(x) for x in case["weights"]]])
         return bool(r["viol"]), (r["viol"][0]["observed"] if r["viol"] else "equivalent")
+    if "exotic" in case:
+        r = _exotic_work([case["exotic"]])
+        return bool(r["viol"]), (r["viol"][0]["why"] + " / observed " + str(r["viol"][0].get("observed")) if r["viol"] else "no longer fails")
     acc = progcheck.Acc(viol_cap=10000)
     global IDS
     out = _work([(case["weights"], case["pop"])])
